@@ -104,7 +104,13 @@ class LiquidError(Exception):
                 break
 
         if target_line_index == -1:
-            raise ValueError("index is out of bounds for the given string")
+            # The index is at (or past) the end of input. This happens for errors
+            # detected when we run out of text, like an unclosed tag or output
+            # statement. Point to the end of the last line.
+            if not lines:
+                return 1, max(index, 0), "", "", ""
+            target_line_index = len(lines) - 1
+            index = min(index, cumulative_length)
 
         # Line number (1-based)
         line_number = target_line_index + 1
